@@ -312,6 +312,16 @@ func run(cfg runConfig) (*runResult, error) {
 		o.Result = &SolveResult{Status: stt, Solver: "ground", Backend: "ground", Output: strings.Join(stores, "\n")}
 		e.obls = append(e.obls, o)
 	}
+	if cfg.prop == "C19" && cfg.funcs == "" {
+		ao, aerrs := e.asmObligations(cfg.repo, lr)
+		e.obls = append(e.obls, ao...)
+		for _, x := range aerrs {
+			res.errors = append(res.errors, x)
+		}
+		if len(ao) == 0 && len(aerrs) == 0 {
+			res.errors = append(res.errors, "the assembly front end produced no obligations")
+		}
+	}
 	if cfg.prop == "C05" || cfg.tables {
 		td := e.loadTables(cfg.repo)
 		if td.err != nil {
